@@ -29,6 +29,12 @@ Families
                   strict |result - sigma| <= precision oracle.
   iv_subulp       precision below the float spacing of the price dtype through every implied-volatility entry point
                   (find_implied_volatility on module / functional prices, the 4 modules; float32 and float64).
+  bisect_own_bracket  per-element brackets given as tensors (shape of the target, one per row, one per column) for
+                  functions monotone on each element's OWN bracket only (x^2, |x|, cos, cosh, x^3 - 3x: turning points
+                  between the brackets, mixed directions in one call), exact inverse on the stretch.
+  iv_wide_bracket find_implied_volatility with lower / upper / precision keywords on brackets [1e-5, 8], [1e-9, 8],
+                  [1e-7, 64] (float64), [1e-5, 8], [1e-6, 64] (float32), volatilities next to both ends; strict oracle
+                  precision + spacing + price rounding / vega.
   iv_history      histories of implied-volatility searches with different brackets in one process.
   iv_batch        the same cases of one module and one direction in ONE call (a tensor over moneyness /
                   maturity / strike), as implied volatilities are computed in practice.
@@ -345,6 +351,153 @@ def bisect_sequence(ctx, block):
             snap = (lower.clone(), upper.clone())   # reported once per change; the sequence goes on
     ctx.add("bisect_sequences", 1)
     ctx.outcome(("seq", tuple((st["fn"], st["decreasing"]) for st in steps), round(got[0], 6)))
+
+
+# ------------------------------------------------------------------------------------------------
+# functions that are monotone on each element's OWN bracket only (turning points between the brackets)
+# ------------------------------------------------------------------------------------------------
+
+def _cubic3_inv(y, lo, hi):
+    """The root of x^3 - 3x = y inside [lo, hi] (Viete: x = 2 cos((acos(y/2) - 2 pi k)/3) for |y| <= 2,
+    x = sign(y) 2 cosh(acosh(|y|/2)/3) else)."""
+    y = mp.mpf(y)
+    if abs(y) <= 2:
+        th = mp.acos(y / 2)
+        cands = [2 * mp.cos((th - 2 * mp.pi * k) / 3) for k in range(3)]
+    else:
+        cands = [mp.sign(y) * 2 * mp.cosh(mp.acosh(abs(y) / 2) / 3)]
+    return min(cands, key=lambda x: max(lo - x, x - hi, 0))
+
+
+# name -> (torch g, mpmath g, mpmath g', inverse of g on the stretch [lo, hi], sum of the magnitudes of the terms of g
+#          (what the rounding of the float evaluation scales with), brackets: one monotone stretch each)
+LOCAL_PROGRAMS = {
+    "square": (torch.square, lambda x: x * x, lambda x: 2 * x,
+               lambda y, lo, hi: mp.sqrt(y) if lo > 0 else -mp.sqrt(y), lambda x: x * x,
+               [[-3.0, -1.0], [1.0, 3.0], [-2.0, -0.5], [0.25, 4.0]]),
+    "abs": (torch.abs, abs, lambda x: mp.sign(x), lambda y, lo, hi: y if lo > 0 else -y, abs,
+            [[-3.0, -1.0], [1.0, 3.0], [-2.0, -0.5], [0.25, 4.0]]),
+    "cos": (torch.cos, mp.cos, lambda x: -mp.sin(x),
+            lambda y, lo, hi: mp.acos(y) if hi < mp.pi else 2 * mp.pi - mp.acos(y), lambda x: mp.mpf(1),
+            [[0.5, 3.0], [3.5, 6.0], [0.25, 2.5], [3.25, 5.75]]),
+    "cosh": (torch.cosh, mp.cosh, mp.sinh, lambda y, lo, hi: mp.acosh(y) if lo > 0 else -mp.acosh(y), mp.cosh,
+             [[-2.0, -0.5], [0.25, 3.0], [-3.0, -1.0], [1.0, 2.0]]),
+    "cubic3": (lambda x: x ** 3 - 3 * x, lambda x: x ** 3 - 3 * x, lambda x: 3 * x * x - 3, _cubic3_inv,
+               lambda x: abs(x) ** 3 + 3 * abs(x),
+               [[-3.0, -1.5], [-0.75, 0.75], [1.5, 3.0], [-0.5, 0.625]]),
+}
+# layouts of the bracket tensors relative to the target: name -> (target shape, bracket shape)
+LOCAL_LAYOUTS = {"full4": ([4], [4]), "full22": ([2, 2], [2, 2]), "col": ([2, 2], [2, 1]), "row": ([2, 2], [2]),
+                 "col23": ([2, 3], [2, 1]), "row23": ([2, 3], [3])}
+
+
+def _local_elements(block):
+    """Per target element: (a, b, lo, hi, frac).  Bracket element j of the bracket tensor uses entry
+    (j + bracket_rotation) of the program's stretches (cyclically), the target element broadcasts onto it."""
+    g_t, g_m, dg_m, ginv, gmag, stretches = LOCAL_PROGRAMS[block["fn"]]
+    tshape, bshape = LOCAL_LAYOUTS[block["layout"]]
+    n = _numel(tshape)
+    rot, brot = block["rotation"], block["bracket_rotation"]
+    fr = block["fractions"]
+    els = []
+    for i in range(n):
+        if len(bshape) == len(tshape) and bshape == tshape:
+            j = i
+        elif len(bshape) == 2:          # [r, 1]: one bracket per row
+            j = i // tshape[1]
+        else:                           # [c]: one bracket per column
+            j = i % tshape[1]
+        lo, hi = stretches[(j + brot) % len(stretches)]
+        a = SLOPES[(i + rot) % len(SLOPES)] if block["coeff"] != "plain" else 1.0
+        b = OFFSETS[(i + rot) % len(OFFSETS)] if block["coeff"] != "plain" else 0.0
+        if block["coeff"] == "per_element_signs" and i % 2:
+            a = -a
+        els.append({"a": a, "b": b, "lo": lo, "hi": hi, "frac": fr[(i + rot) % len(fr)]})
+    return els
+
+
+@family
+def bisect_own_bracket(ctx, block):
+    """Element-wise brackets given as tensors (shape of the target, or broadcastable: one bracket per row / per
+    column) for functions that are monotone on every element's OWN bracket but not on the hull of the brackets
+    (x^2, |x|, cos, cosh, x^3 - 3x: the brackets lie on different sides of the turning points, so the direction
+    differs between the elements of one call).  The statement quantifies over functions monotone "on the
+    bracket", element-wise: every element must be within precision of the exact root in its bracket."""
+    from pfhedge._utils.bisect import bisect
+    g_t, g_m, dg_m, ginv, gmag, stretches = LOCAL_PROGRAMS[block["fn"]]
+    dtype = DT[block["dtype"]]
+    tshape, bshape = LOCAL_LAYOUTS[block["layout"]]
+    precision = block["precision"]
+    els = _local_elements(block)
+    n = len(els)
+    a = torch.tensor([e["a"] for e in els], dtype=dtype).reshape(tshape)
+    b = torch.tensor([e["b"] for e in els], dtype=dtype).reshape(tshape)
+    nb = _numel(bshape)
+    brot = block["bracket_rotation"]
+    lower = torch.tensor([stretches[(j + brot) % len(stretches)][0] for j in range(nb)], dtype=dtype).reshape(bshape)
+    upper = torch.tensor([stretches[(j + brot) % len(stretches)][1] for j in range(nb)], dtype=dtype).reshape(bshape)
+    plain = block["coeff"] == "plain"
+    model, tg = [], []
+    for e in els:
+        lo, hi = mp.mpf(e["lo"]), mp.mpf(e["hi"])      # dyadic: exact in float32
+        flo, fhi = e["a"] * g_m(lo) + e["b"], e["a"] * g_m(hi) + e["b"]
+        tg.append(float(flo + mp.mpf(e["frac"]) * (fhi - flo)))
+    target = torch.tensor(tg, dtype=dtype).reshape(tshape)
+    for e, y in zip(els, target.reshape(-1).tolist()):
+        lo, hi = mp.mpf(e["lo"]), mp.mpf(e["hi"])
+        root = ginv((mp.mpf(y) - e["b"]) / e["a"], lo, hi)
+        root = min(max(root, lo), hi)
+        xs = [root, max(lo, root - 2 * precision), min(hi, root + 2 * precision)]
+        model.append({"root": root, "lo": lo, "hi": hi, "y": y,
+                      # |slope| is monotone or concave on every stretch used here: its minimum over
+                      # [root - 2 precision, root + 2 precision] is taken at one of the three points
+                      "slope_min": min(abs(e["a"] * dg_m(x)) for x in xs),
+                      "size": abs(e["a"]) * gmag(root) + abs(e["b"]) + abs(y),
+                      "direction": 1 if e["a"] * (g_m(hi) - g_m(lo)) > 0 else -1})
+    calls = {"n": 0}
+
+    def fn(x):
+        calls["n"] += 1
+        return g_t(x) if plain else a * g_t(x) + b
+
+    nstar = max(max(0, math.ceil(math.log2(float(m["hi"] - m["lo"]) / precision))) for m in model)
+    site = "bisect"
+    try:
+        with watchdog(nstar + 2):
+            out = bisect(fn, target, lower, upper, precision=precision, max_iter=nstar + 2)
+    except _Hang:
+        ctx.tick(n)
+        ctx.violation(site, "hang", f"bisect did not stop within the CPU budget of {nstar + 2} iterations on {block}", block=block)
+        return
+    except (RuntimeError, ValueError) as e:
+        ctx.tick(n)
+        ctx.violation(site, "raises_on_per_element_brackets",
+                      f"bisect({block['fn']}, brackets {lower.tolist()} .. {upper.tolist()}, target shape {tshape}) raised "
+                      f"{type(e).__name__}: {e}; the model completes it in {nstar} halvings",
+                      observed=f"{type(e).__name__}: {e}", expected="a root", block=block)
+        return
+    if tuple(out.shape) != tuple(tshape):
+        ctx.tick(n)
+        ctx.violation(site, "shape", f"output shape {tuple(out.shape)} != target shape {tuple(tshape)} (brackets of shape {bshape})",
+                      observed=list(out.shape), expected=list(tshape), block=block)
+        return
+    got = out.detach().to(torch.float64).reshape(-1).tolist()
+    dirs = {m["direction"] for m in model}
+    for i, (e, m, x) in enumerate(zip(els, model, got)):
+        tol = precision + float(_eta(m, dtype, precision))
+        err = abs(mp.mpf(x) - m["root"])
+        if x != x or err > tol:
+            ctx.violation(site, "root_own_bracket_" + ("mixed_directions" if len(dirs) > 1 else "one_direction"),
+                          f"bisect({block['fn']}, coefficients {block['coeff']}, element {i}: a={e['a']}, b={e['b']}, own bracket "
+                          f"[{e['lo']}, {e['hi']}] ({'increasing' if m['direction'] > 0 else 'decreasing'} there), brackets given as "
+                          f"tensors lower={lower.tolist()} upper={upper.tolist()}, target {m['y']!r} (fraction {e['frac']}), "
+                          f"precision {precision}, target shape {tshape}, {block['dtype']}) = {x!r}; root = {float(m['root'])!r} "
+                          f"(|diff| {float(err):.3e} > {tol:.3e})", observed=x, expected=float(m["root"]), block=block)
+    ctx.tick(n, nontrivial=n if len(dirs) > 1 else 0)
+    ctx.add("own_bracket_calls", 1)
+    ctx.add("own_bracket_calls_mixed_directions", 1 if len(dirs) > 1 else 0)
+    ctx.add("function_evaluations_by_bisect", calls["n"])
+    ctx.outcome(("own", block["fn"], block["layout"], tuple(sorted(dirs)), round(got[0], 6)))
 
 
 @family
@@ -724,14 +877,14 @@ def model_price(product, call, s, m, t, v):
     return r
 
 
-def monotone_direction(product, call, s, m, t, lo=None, hi=None):
+def monotone_direction(product, call, s, m, t, lo=None, hi=None, floor=V_LO):
     """+1 / -1 if the model's vega has one strict sign on the whole bracket (at 31 log-spaced points, ends
-    included; default bracket [0.001, 1], a lower end 0 is replaced by 0.001), else 0."""
+    included; default bracket [0.001, 1], a lower end below ``floor`` (default 0.001) is replaced by it), else 0."""
     grid = MONO_GRID
     if lo is not None:
-        lo_ = max(lo, V_LO)
+        lo_ = max(lo, floor)
         grid = [lo_ * (hi / lo_) ** (i / 30) for i in range(31)]
-    key = (product, call, s, m, t, lo, hi)
+    key = (product, call, s, m, t, lo, hi, floor)
     r = _MONO.get(key)
     if r is None:
         S, M = mp.exp(mp.mpf(s)), mp.exp(mp.mpf(m))
@@ -1209,6 +1362,97 @@ def iv_bracket(ctx, block):
         ctx.outcome(("iv_bracket", entry, product, call, tuple(block["bracket"]), round(float(iv[0]), 7)))
 
 
+def _price_round(product, s, m, t, v, K, p, eps):
+    """Rounding of the implementation's price in the dtype with machine epsilon ``eps``.  price_tol() has the
+    factor (1 + (1 + |s| + |m|) / w): the absolute rounding of s and m (and of s - m) divided by w = v sqrt(t)
+    moves d.  At s = m = 0 those quotients are exactly 0 and d = +-w/2 carries relative rounding only
+    (|delta| <= 4 eps), which moves N(d) by |d| phi(d) |delta| <= 0.25 * 4 eps: the factor is then 1 + 1 = 2,
+    whatever w - this is what lets a price resolve volatilities of 1e-5 and below."""
+    if s == 0 and m == 0:
+        w = v * math.sqrt(t)
+        d = min(w / 2, 40.0)
+        U = K if product in ("european", "lookback") else 1.0
+        return 64 * eps * 2 * (abs(p) + U * 3 * (1 + w * (1 + d)))
+    return price_tol(product, s, m, t, v, K, p, eps)
+
+
+@family
+def iv_wide_bracket(ctx, block):
+    """find_implied_volatility with the documented lower / upper / precision keywords on brackets whose lower end
+    is far below sqrt(eps) of the dtype and whose upper end is far above 1, in float32 and float64, with the
+    generating volatilities next to BOTH ends of the caller's bracket (multiples of the lower end, fractions of
+    the upper end).  Oracle: bisection returns the upper end of a final bracket of width <= precision containing
+    the crossing point of the float price, so
+        |result - sigma| <= precision + spacing of the dtype at sigma + (rounding of the price in the dtype) / |vega|,
+    vega from the model at sigma.  The last term says where the price resolves the volatility: elements where
+    it exceeds an eighth of the bracket (flat price) are skipped and counted; elements where it is below
+    100 precisions count as non-trivial."""
+    product, call, K = block["product"], block["call"], block["K"]
+    dtype = DT[block["dtype"]]
+    eps = float(torch.finfo(dtype).eps)
+    lo_b, hi_b = block["bracket"]
+    precision = block["precision"]
+    U = K if product in ("european", "lookback") else 1
+    module = _module(product, call, K)
+    cases = [tuple(c) for c in block["cases"]]
+    cases = [c for c in cases if monotone_direction(product, call, *c, lo_b, hi_b, floor=0.0) != 0]
+    if not cases:
+        ctx.add("iv_wide_bracket_blocks_without_monotone_case", 1)
+        return
+    vs = block["v"]
+    rows = [(c, v) for c in cases for v in vs]
+    lm = torch.tensor([c[0] for c, v in rows], dtype=dtype)
+    mm = torch.tensor([c[1] for c, v in rows], dtype=dtype)
+    tt = torch.tensor([c[2] for c, v in rows], dtype=dtype)
+    vv = torch.tensor([v for c, v in rows], dtype=dtype)
+    vfs = vv.to(torch.float64).tolist()          # the volatility that generated the price is the rounded one
+    site = "find_implied_volatility"
+    for entry in block.get("entries", ["functional", "functional_bs"]):
+        run = _iv_entry(entry, product, call, K, dtype)
+        price = _price_call(module, product, lm, mm, tt, vv)
+        mini = dict(block, entries=[entry])
+        ctx.tick(len(rows))
+        try:
+            with watchdog(100, work=10):
+                iv = run(lm, mm, tt, price, precision=precision, lower=lo_b, upper=hi_b)
+        except _Hang:
+            ctx.violation(site, "hang", f"did not stop on bracket {block['bracket']}", block=mini)
+            continue
+        except RuntimeError as e:
+            ctx.violation(site, "raises_with_bracket",
+                          f"find_implied_volatility({CLASSES[product]} price, lower={lo_b}, upper={hi_b}, precision={precision}, "
+                          f"{block['dtype']}) raised {e} although {math.ceil(math.log2((hi_b - lo_b) / precision))} halvings suffice",
+                          observed=str(e), block=mini)
+            continue
+        if tuple(iv.shape) != (len(rows),):
+            ctx.violation(site, "shape", f"shape {tuple(iv.shape)}", block=mini)
+            continue
+        nontriv = 0
+        for (case, v), vf, x in zip(rows, vfs, iv.to(torch.float64).tolist()):
+            s, m, t = case
+            key = ("wide_slack", product, call, K, case, vf, eps)
+            slack = _PRICE.get(key)
+            if slack is None:
+                vega = abs(U * B.greek("vega", product, mp.exp(mp.mpf(s)), mp.exp(mp.mpf(m)), 1, t, vf, call))
+                pm = float(U * B.price(product, mp.exp(mp.mpf(s)), mp.exp(mp.mpf(m)), 1, t, vf, call))
+                slack = _PRICE[key] = (_price_round(product, s, m, t, vf, K, pm, eps) / float(vega)) if vega > 1e-200 else math.inf
+            if not (slack <= (hi_b - lo_b) / 8):
+                ctx.add("iv_wide_bracket_elements_skipped_flat_price", 1)
+                continue
+            nontriv += slack <= 100 * precision
+            tol = precision + _spacing_below(vf, dtype) + slack
+            if x != x or abs(x - vf) > tol:
+                near = "lower" if vf - lo_b < hi_b - vf else "upper"
+                ctx.violation(site, f"iv_wide_bracket_near_{near}_end",
+                              f"find_implied_volatility({CLASSES[product]}(call={call}, strike={K}) price via {entry}, lower={lo_b}, "
+                              f"upper={hi_b}, precision={precision}, {block['dtype']}) at (s={s}, m={m}, t={t}): price of volatility "
+                              f"{vf!r} gives {x!r} (|diff| {abs(x - vf):.3e} > {tol:.3e} = precision + spacing + price rounding / vega)",
+                              observed=x, expected=vf, block=dict(mini, cases=[list(case)], v=[v]))
+        ctx.add("distinct_nontrivial", nontriv)
+        ctx.add("iv_wide_bracket_elements_resolved_to_100_precisions", nontriv)
+        ctx.outcome(("iv_wide", entry, product, call, tuple(block["bracket"]), block["dtype"], precision, round(float(iv[0]), 9)))
+
+
 IV_BRACKETS = [[0.001, 1.0], [0.3, 1.0], [0.001, 0.5], [0.05, 2.0]]
 
 
@@ -1301,7 +1545,11 @@ def run(ctx):
              "bound tensors x shape x dtype x precision.  bisect_subulp: program x direction x shape x bracket x bound/target "
              "dtype x sub-spacing precision x max_iter.  iv_cases: module x call/put x strike x (log-moneyness x maturity x running-max spec) x 12 "
              "volatilities x precision, monotone cases only; non-trivial = (case, volatility) pairs where the price pins the "
-             "volatility down to ~precision.  iv_batch: the same cases of one direction in one call")
+             "volatility down to ~precision.  iv_batch: the same cases of one direction in one call.  bisect_own_bracket: locally "
+             "monotone program x bracket-tensor layout x coefficient pattern x rotation of the stretches over the bracket elements "
+             "x target rotation x precision x dtype; non-trivial = calls with both directions.  iv_wide_bracket: product x "
+             "call/put x (dtype, bracket, precision) x case x volatilities next to both bracket ends x entry point; "
+             "non-trivial = elements whose price resolves the volatility to 100 precisions")
     ctx.assume("torch.exp/log/tanh/sigmoid are accurate to 2 ulp (enters the rounding slack eta only)")
     ctx.assume("every element of a function handed to bisect is monotone on its bracket; elements of opposite directions in "
                "one call are included (per-element direction, /repo 93b5433)")
@@ -1417,6 +1665,21 @@ def run(ctx):
                                    "fractions": fractions, "precision": precision})
     for b in seq_blocks:
         ctx.run("bisect_sequence", b)
+    # per-element tensor brackets (full shape / one per row / one per column) on functions monotone only on each
+    # element's own bracket: every rotation of the program's stretches over the bracket elements
+    ctx.alphabet("own-bracket programs", {k: v[5] for k, v in LOCAL_PROGRAMS.items()})
+    ctx.alphabet("own-bracket layouts (target shape, bracket shape)", LOCAL_LAYOUTS)
+    own = []
+    for name, layout, coeff in itertools.product(LOCAL_PROGRAMS, LOCAL_LAYOUTS, ["plain", "per_element", "per_element_signs"]):
+        if quick and layout in ("col23", "row23") and coeff == "per_element":
+            continue
+        for brot, (dname, precision) in itertools.product(range(4), [("float64", 1e-6), ("float32", 1e-4)] if quick else
+                                                          [("float64", 1e-4), ("float64", 1e-6), ("float64", 1e-8), ("float32", 1e-4)]):
+            for rot in ([brot % 2] if quick else range(len(fractions))):
+                own.append({"fn": name, "layout": layout, "coeff": coeff, "bracket_rotation": brot, "rotation": rot,
+                            "fractions": fractions, "precision": precision, "dtype": dname})
+    for b in own:
+        ctx.run("bisect_own_bracket", b)
     # precision finer than the floats of the bound dtype around the root: cannot converge
     sub = []
     for decreasing, slope, shape in itertools.product([False, True], [1.0, 0.5, 2.0], [[], [3]]):
@@ -1484,6 +1747,23 @@ def run(ctx):
                 for precision in ([1e-6] if quick else [1e-4, 1e-6, 1e-8]):
                     ctx.run("iv_bracket", {"product": product, "call": call, "K": 1.3, "cases": cs, "v": vs_, "bracket": bracket,
                                            "precision": precision})
+    # wide brackets by keyword (lower end far below sqrt(eps), upper end far above 1), generating volatilities next
+    # to both ends, float32 and float64
+    wide = [("float64", [1e-5, 8.0], [1e-6, 1e-9]), ("float64", [1e-9, 8.0], [1e-10]), ("float64", [1e-7, 64.0], [1e-8]),
+            ("float32", [1e-5, 8.0], [1e-6, 1e-5]), ("float32", [1e-6, 64.0], [1e-5])]
+    ctx.alphabet("iv wide brackets (dtype, bracket, precisions)", wide)
+    ctx.alphabet("iv wide bracket volatilities", "lower end x (1.5, 3, 10, 30), 0.2, upper end x (0.75, 0.999)")
+    for product in B.PRODUCTS:
+        for call in ([True, False] if product in ("european", "european_binary") else [True]):
+            if product in NEEDS_MAX:
+                cs = [[0.0, 0.0, 4.0], [0.0, 0.0, 0.0625], [-0.1, -0.05, 0.0625], [-0.1, -0.05, 0.004]]
+            else:
+                cs = [[0.0, 0.0, 4.0], [0.0, 0.0, 0.0625], [-0.1, -0.1, 0.004], [0.0, 0.0, 0.004], [0.1, 0.1, 0.004]]
+            for dname, bracket, precs in wide:
+                vs_ = [bracket[0] * f for f in (1.5, 3.0, 10.0, 30.0)] + [0.2] + [bracket[1] * f for f in (0.75, 0.999)]
+                for precision in (precs[:1] if quick else precs):
+                    ctx.run("iv_wide_bracket", {"product": product, "call": call, "K": 1.3, "dtype": dname, "cases": cs, "v": vs_,
+                                                "bracket": bracket, "precision": precision})
     # one scalar float64 price against vector log-moneyness / maturity
     for product in B.PRODUCTS:
         for call in ([True, False] if product in ("european", "european_binary") else [True]):
